@@ -159,6 +159,23 @@ func c36Fanout(c *fw.Ctx, round int64) {
 					msub.RemoveNodes(ctx, id)
 				})
 				defer msub.Unsubscribe(context.Background())
+				// a second subscription of the same node monitor adds and removes nodes at the same time
+				mch2 := make(chan *monitor.DataChangeMessage, 256)
+				if msub2, err := nm.ChanSubscribe(ctx, &opcua.SubscriptionParameters{Interval: 5 * time.Millisecond}, mch2, rs.Vars[1].ID().String()); err == nil {
+					run(func(k int) {
+						select {
+						case <-mch2:
+						case <-time.After(time.Millisecond):
+						}
+					})
+					run(func(k int) {
+						id := rs.Vars[(2+k)%4].ID().String()
+						msub2.AddNodes(ctx, id)
+						_ = msub2.Dropped()
+						msub2.RemoveNodes(ctx, id)
+					})
+					defer msub2.Unsubscribe(context.Background())
+				}
 			}
 		}
 	}
